@@ -15,7 +15,8 @@ ASSUMPTIONS = [
     "and on every reported violation",
 ]
 SPEC = {
-    'quick': [('K0p', 'small', 3),
+    'quick': [('K21', 'lend', 4),
+              ('K0p', 'small', 3),
               ('K1', 'ar', 6),
               ('K16', 'cross', 4),
               ('K0', 'std', 3),
